@@ -113,6 +113,11 @@ def run_P(ck):
     ck.assume('forge_operation by contract: a byte string of length S (content is C06); final size <= S + 9 after filling fee/gas/storage')
     ck.trust('PyVC encoding of the Python subset (DESIGN.md 3.2)')
     ck.trust('z3 5.1')
+    from vlib.pyvc.crosscheck import crosscheck
+    tx = {'kind': 'transaction', 'source': 'tz1KqTpEZ7Yob7QbPE4Hy4Wo8fHG8LhKxZSx', 'fee': '0', 'counter': '1', 'gas_limit': '0', 'storage_limit': '0',
+          'amount': '1', 'destination': 'tz1KqTpEZ7Yob7QbPE4Hy4Wo8fHG8LhKxZSx'}
+    crosscheck(ck, Fm.calculate_fee, [(tx, 0, 0), (tx, 1040000, 105), (tx, 999, 137, 0, 7)])
+    crosscheck(ck, Fm.default_fee, [(tx,), (tx, 12345), (dict(tx, source='tz4HVR6aty9KwsQFHh81C1G7gBdhxT8kuytm'),)])
     for flag in (True, False):
         eng = Engine()
         run_harness(ck, eng, h_calculate(flag), f'calculate_fee[{flag}]')
